@@ -19,6 +19,7 @@ def run(tier, seed):
     br, ob = fw.standard_prelude(chk, with_coqchk=(tier == "thorough"))
     rng = chk.rng
     B = regrun.RegBench(chk, br)
+    B.O.chain_log = []
     quick = tier == "quick"
     unrelated = regsim.der(regsim.PKI("Q", root_cn="Bystander").root)
     for fmt in regsim.X5C_FORMATS:
@@ -90,6 +91,8 @@ def run(tier, seed):
         chk.evals += 1
         if il != ref:
             chk.diverge("validate_certificate_chain vs reference oracle", f"impl {il} ref {ref}", {"x5c": [c.hex() for c in x5c], "n_roots": len(roots)})
+    from harness import chainview
+    chainview.cross_check(chk, B.R, B.O.chain_log)
     B.close()
     chk.notes.append({"oracle_queries": B.O.counts})
     return fw.finish(chk, ob, br, TRUSTED,
